@@ -136,12 +136,13 @@ def run_unit(seed=None, unit=None, tier="quick", stats=None, prop="C06"):
         early = bool(st.draw(2, "w2_early"))
         capacity = (100, 1, 2, 3)[st.draw(4, "w2_cap")]
         close_after = st.weighted((3, 3, 2, 1, 1), "w2_close_after")
-        if spec.itemfail_motif and r % 2 == 0:
+        r_eff = r if r < n else 0  # sweep runs repeat schedule 0 (and replay as schedule 0)
+        if spec.itemfail_motif and r_eff % 2 == 0:
             # the motif needs early execution and room in the queue; half of its schedules get both
             early = True
             capacity = 100
             close_after = max(close_after, 2)
-        if spec.nestclose_motif and r % 2 == 1:
+        if spec.nestclose_motif and r_eff % 2 == 1:
             # the producer completes the items itself and the consumer closes mid-stream
             early = False
             close_after = 1 + st.draw(2, "w2_n_close")
